@@ -6,7 +6,8 @@ import LyModel.Merge.Model
 generators' trees are checked against (driver op `wf`):
 
 * shape: a term node for a leaf / leaf-list, an inner node for a container / list, below the right data parent;
-  a list instance starts with exactly its keys (in schema order) and has no key elsewhere;
+  a list instance starts with exactly its keys (in schema order), all other children are no keys and come later in the
+  schema;
 * canonical sibling order (`Tree.insertNode` keeps it): schema order, instances of a system-ordered keyed list /
   leaf-list in non-decreasing order of the type's `sort` callback — stated pairwise;
 * unique instances: at most one instance of a leaf / container, no two instances of a keyed list with the same keys, no
@@ -35,11 +36,11 @@ def okPair (S : Schema) (a b : DNode) : Bool :=
 /-- number of leading key children of an instance of schema node `sid` -/
 def listKeys (S : Schema) (sid : Nat) : Nat := if S.isKind sid .list then S.nkeys sid else 0
 
-/-- the leading keys of an instance of list `sid`: term nodes with the schema ids `sid+1 … sid+nkeys` -/
-def keysOk (S : Schema) (sid : Nat) : Nat → List DNode → Bool
-  | 0, _ => true
-  | _, [] => false
-  | n + 1, k :: ks => k.isTerm && k.sid == sid + 1 + (listKeys S sid - (n + 1)) && S.isKey k.sid && keysOk S sid n ks
+/-- the leading keys of an instance of list `s`, from position `i` on: term nodes with the schema ids `s+1+i, …`, as
+many as the list has keys -/
+def keysSeq (S : Schema) (s : Nat) : Nat → List DNode → Bool
+  | i, [] => i == listKeys S s
+  | i, k :: ks => k.isTerm && k.sid == s + 1 + i && keysSeq S s (i + 1) ks
 
 mutual
 /-- shape: node kinds, data parents, a list instance starts with exactly its keys, every other child comes later in the
@@ -48,8 +49,8 @@ def shapeNode (S : Schema) (parent : Option Nat) : DNode → Bool
   | .term s _ _ _ => S.isTerm s && S.dataParent s == parent
   | .inner s _ _ ks =>
     S.isInner s && S.dataParent s == parent &&
-    keysOk S s (listKeys S s) ks &&
-    (ks.drop (listKeys S s)).all (fun c => !S.isKey c.sid && s + listKeys S s < c.sid) &&
+    keysSeq S s 0 (keysOf S ks) &&
+    (noKeys S ks).all (fun c => !S.isKey c.sid && s + listKeys S s < c.sid) &&
     shapeAll S (some s) ks
 def shapeAll (S : Schema) (parent : Option Nat) : List DNode → Bool
   | [] => true
